@@ -383,6 +383,10 @@ class BaseWorklist(list):
             raise ValueError(f'"direction" must be either "left_to_right" or "right_to_left"')
         direction_i = 0 if direction == "left_to_right" else 1
 
+        for position in (src_start, src_end, dst_start, dst_end):
+            if not isinstance(position, (int, numpy.integer)) or position < 0:
+                raise ValueError(f"Invalid position: {position}")
+
         if exclude_wells is None:
             exclude_list = []
         else:
